@@ -137,8 +137,8 @@ def merge(reports):
         for k, v in st.get("max_util", {}).items():
             total["max_util"][k] = max(total["max_util"].get(k, 0.0), v)
         total["states"].update(st.get("states", []))
-        for seed, digest, nontrivial in rep["digests"]:
-            digests[seed] = (digest, nontrivial)
+        for entry in rep["digests"]:
+            digests[entry[0]] = (entry[1], entry[2])
         violations.extend(rep["violations"])
         if len(samples) < 3:
             samples.extend(rep["samples"][:1])
